@@ -543,7 +543,7 @@ func cases(tier string) int {
 	if tier == "thorough" {
 		return 6000 // the BPF leg loads four programs per state into the kernel (the verifier is serialised system-wide)
 	}
-	return 400
+	return 300
 }
 
 func main() {
